@@ -1,8 +1,6 @@
 package main
 
 import (
-	"go/ast"
-	"go/types"
 	"bufio"
 	"crypto/sha256"
 	"encoding/json"
@@ -274,6 +272,15 @@ func cmdCheck(args []string) {
 	}
 }
 
+func onlySafety(ct *Contract) bool {
+	for _, p := range ct.Props {
+		if p != "C10" {
+			return false
+		}
+	}
+	return true
+}
+
 func runProperty(eng *Engine, prop, tier string, timeout int, findings []Finding, lock map[string]bool, keep, vdir string) *CheckResult {
 	res := &CheckResult{Property: prop, Outside: map[string]string{}, Trusted: map[string]bool{}, Assumed: map[string]bool{}}
 	// functions under contract for this property
@@ -283,55 +290,6 @@ func runProperty(eng *Engine, prop, tier string, timeout int, findings []Finding
 			if p == prop {
 				keys = append(keys, k)
 			}
-		}
-	}
-	// ... and, transitively, the repository functions under contract that they call: a caller's proof uses the callee's
-	// contract, so the property also rests on the callee's body meeting that contract
-	{
-		have := map[string]bool{}
-		for _, k := range keys {
-			have[k] = true
-		}
-		work := append([]string(nil), keys...)
-		for len(work) > 0 {
-			k := work[0]
-			work = work[1:]
-			fi := eng.funcs[k]
-			if fi == nil || fi.Decl == nil || fi.Decl.Body == nil {
-				continue
-			}
-			info := fi.Pkg.TypesInfo
-			ast.Inspect(fi.Decl.Body, func(n ast.Node) bool {
-				call, ok := n.(*ast.CallExpr)
-				if !ok {
-					return true
-				}
-				var id *ast.Ident
-				switch f := ast.Unparen(call.Fun).(type) {
-				case *ast.Ident:
-					id = f
-				case *ast.SelectorExpr:
-					id = f.Sel
-				case *ast.IndexExpr:
-					if x, ok := f.X.(*ast.Ident); ok {
-						id = x
-					}
-				}
-				if id == nil {
-					return true
-				}
-				fn, ok := info.ObjectOf(id).(*types.Func)
-				if !ok {
-					return true
-				}
-				ck := funcKey(fn)
-				if ct := eng.contracts[ck]; ct != nil && !ct.Trusted && strings.HasPrefix(ck, repoPrefix) && eng.funcs[ck] != nil && !have[ck] {
-					have[ck] = true
-					keys = append(keys, ck)
-					work = append(work, ck)
-				}
-				return true
-			})
 		}
 	}
 	sort.Strings(keys)
